@@ -59,6 +59,10 @@ def parseAct : List String → Option Act
   | ["hexitr", sid, _] => do pure (.hexit (← parseNat sid))
   | ["crstr", sid, _] => do pure (.crst (← parseNat sid))
   | ["shutdown", sid] => do pure (.shutdown (← parseNat sid))
+  -- the peer stops / resumes reading (the endpoint's writer blocks, its frames queue up): no effect
+  -- of its own on what the peer has sent or been told; queued frames show up on a later line
+  | ["block"] => some (.read 0)
+  | ["unblock"] => some (.read 0)
   | ["quiesce"] => some .quiesce
   | _ => none
 
